@@ -164,6 +164,21 @@ pub fn dispatch(a: &[String]) -> String {
         },
       }
     }
+    "unary_tests" => {
+      // unary_tests <input expr> <tests>: evaluates `input in <tests>` the way decision tables do
+      let scope = dmntk_feel::Scope::default();
+      let input = dmntk_feel_parser::parse_expression(&scope, &a[1], false).unwrap();
+      match dmntk_feel_parser::parse_unary_tests(&scope, &a[2], false) {
+        Ok(tests) => {
+          let node = dmntk_feel::AstNode::In(Box::new(input), Box::new(tests));
+          match dmntk_feel_evaluator::evaluate(&scope, &node) {
+            Ok(v) => format!("VALUE {}", v),
+            Err(e) => format!("EVAL-ERROR {}", e),
+          }
+        }
+        Err(e) => format!("PARSE-ERROR {}", e),
+      }
+    }
     _ => format!("UNKNOWN-COMMAND {}", a[0]),
   }
 }
